@@ -150,7 +150,8 @@ def run(tier, seed, rng):
     cov = Coverage(
         'n enumerated exhaustively over the stated range (positions of get_triu / fill_triu '
         'vs extracted model); a case is non-trivial when n >= 3 (positions), when the shape '
-        'guard sees a group of size > 1 (guard), or when n >= 2 (value cases); distinct by hash')
+        'guard sees a group of size > 1 (guard), or when n >= 2 (value cases: symmetric vs dense results of allreduce / broadcast / '
+        'bucketed allreduce, bucket caps 1 MB / 400 B / 100 B); distinct by hash')
     failures: list[Failure] = []
     nmax_full = 96 if tier == 'quick' else 128
     nmax_idx = 128 if tier == 'quick' else 512
@@ -258,6 +259,11 @@ def run(tier, seed, rng):
             for fn in ('allreduce', 'allreduce_avg', 'allreduce_avg_raw', 'broadcast', 'allreduce_bucketed', 'allreduce_bucketed_avg_raw', 'two_results'):
                 for dt in ('float32', 'float64'):
                     vcases.append({'kind': 'sym_vs_dense', 'W': W, 'n': n, 'fn': fn, 'dtype': dt})
+            # bucket caps below the size of one packed triangle / of two of them: a tensor that overflows the pending bucket, and one
+            # that alone exceeds the cap, take other branches of allreduce_bucketed than a tensor that fits
+            for cap in (0.0001, 0.0004):
+                for fn in ('allreduce_bucketed', 'allreduce_bucketed_avg_raw', 'bucketed_seq'):
+                    vcases.append({'kind': 'sym_vs_dense', 'W': W, 'n': n, 'fn': fn, 'dtype': 'float32', 'cap': cap})
             if W >= 3:
                 # a sub-group that does not contain rank 0: the source's global rank differs from its index in the group
                 for src in (1, W - 1):
@@ -267,7 +273,7 @@ def run(tier, seed, rng):
         dt = getattr(torch, case['dtype'])
 
         def body(rank, sym):
-            comm = TorchDistributedCommunicator(bucket_cap_mb=1.0)
+            comm = TorchDistributedCommunicator(bucket_cap_mb=case.get('cap', 1.0))
             base = torch.arange(n * n, dtype=dt).reshape(n, n) * (rank + 1) + 7 * rank
             t = torch.triu(base) + torch.triu(base, 1).t()
 
@@ -299,6 +305,14 @@ def run(tier, seed, rng):
                 comm.flush_allreduce_buckets()
                 r3 = r3.wait() if hasattr(r3, 'wait') else r3
                 return [(list(x.shape), str(x.dtype), x.reshape(-1).tolist()) for x in (r1, r2, r3)]
+            elif fn == 'bucketed_seq':
+                # several requests of different sizes against one small bucket: some fit, some overflow it, some exceed the cap alone
+                m = max(1, n // 2)
+                ins = [t.clone(), t[:m, :m].clone() + 1, t * 2 + 3, t[:1, :1].clone(), t + 5]
+                rs = [comm.allreduce_bucketed(x, symmetric=sym, average=(i == 2)) for i, x in enumerate(ins)]
+                comm.flush_allreduce_buckets()
+                rs = [x.wait() if hasattr(x, 'wait') else x for x in rs]
+                return [(list(x.shape), str(x.dtype), x.reshape(-1).tolist()) for x in rs]
             elif fn == 'broadcast_sub':
                 grp = torch.distributed.new_group(list(range(1, W)))
                 if rank == 0:
